@@ -177,6 +177,7 @@ func runC34(c *core.Ctx) {
 		}
 	}
 
+	checkApplicationConsumed(c)
 	checkIndexAllocation(c)
 	checkCommitDpos(c, ppm)
 }
